@@ -361,7 +361,7 @@ structure Img where
   hasCs : Bool
   bpc : Option Int
   nfilters : Nat
-  deriving Repr
+  deriving Repr, DecidableEq
 
 /-- the `color_space` match: `array[0]` is an unchecked index -/
 def imageColorSpace (dict : Dict) : Outcome Bool :=
@@ -378,6 +378,14 @@ def imageFilters (dict : Dict) : Outcome Nat :=
   | some (.arr a) => if a.all (fun o => o.asName.isSome) then .ok a.length else E
   | some (.name _) => .ok 1
   | _ => .ok 0
+
+/-- `match dict.get(b"BitsPerComponent") { Ok(bpc) => Some(bpc.as_i64()?), Err(_) => None }` -/
+def imageBpc (dict : Dict) : Outcome (Option Int) :=
+  match dict.get K_BitsPerComponent with
+  | some b => (match b.asInt with
+    | some i => .ok (some i)
+    | none => E)
+  | none => .ok none
 
 /-- one pass of the `for (_, xvalue) in xobject.iter()` loop: `none` = `continue` -/
 def imageOf (os : Objects) (xv : Obj) : Outcome (Option Img) :=
@@ -401,10 +409,7 @@ def imageOf (os : Objects) (xv : Obj) : Outcome (Option Img) :=
             | .panic s => .panic s
             | .err e => .err e
             | .ok cs =>
-              let bpc : Outcome (Option Int) := match dict.get K_BitsPerComponent with
-                | some b => (match b.asInt with | some i => .ok (some i) | none => E)
-                | none => .ok none
-              match bpc with
+              match imageBpc dict with
               | .panic s => .panic s
               | .err e => .err e
               | .ok bpc =>
